@@ -631,6 +631,10 @@ func (R *Renderer) call(x *ssa.Call) string {
 		args = append(args, R.V(a))
 	}
 	if cc.IsInvoke() {
+		// the receiver was converted to the interface right here: the callee is known
+		if m, recv := devirtualise(cc); m != nil {
+			return FnName(m) + "(" + strings.Join(append([]string{R.V(recv)}, args...), ",") + ")"
+		}
 		return "invoke." + cc.Method.Name() + "(" + strings.Join(append([]string{R.V(cc.Value)}, args...), ",") + ")"
 	}
 	if b, ok := cc.Value.(*ssa.Builtin); ok {
@@ -1452,4 +1456,22 @@ func tupleTemplate(h *ssa.Function, i int) (string, bool) {
 	}
 	tupleMemo[h][i] = &out
 	return out, true
+}
+
+// devirtualise: an interface call whose receiver is a MakeInterface of a value of a concrete
+// type (possibly through a phi-free local): the method of that type, and the concrete receiver.
+func devirtualise(cc *ssa.CallCommon) (*ssa.Function, ssa.Value) {
+	if !cc.IsInvoke() {
+		return nil, nil
+	}
+	mi, ok := cc.Value.(*ssa.MakeInterface)
+	if !ok {
+		return nil, nil
+	}
+	prog := mi.Parent().Prog
+	m := prog.LookupMethod(mi.X.Type(), cc.Method.Pkg(), cc.Method.Name())
+	if m == nil || m.Blocks == nil {
+		return nil, nil
+	}
+	return m, mi.X
 }
